@@ -37,11 +37,18 @@ def apply_unified_diff(sources, diff_text):
             m = re.match(r'@@ -(\d+)(?:,(\d+))? \+(\d+)(?:,(\d+))? @@', line)
             if not m:
                 return None
-            hunks.append([int(m.group(1)), []])
+            hunks.append([int(m.group(1)), [], int(m.group(2) or 1), int(m.group(4) or 1)])
         elif cur is not None and hunks and (line[:1] in (' ', '+', '-') or line == ''):
             if line.startswith('\\'):
                 continue
-            hunks[-1][1].append(line if line else ' ')
+            h = hunks[-1]
+            # the @@ header says how many old/new lines the hunk has: anything after that (the empty string after the
+            # final newline of the file, mail signatures) is not part of it
+            n_old = sum(1 for l in h[1] if l[:1] in (' ', '-'))
+            n_new = sum(1 for l in h[1] if l[:1] in (' ', '+'))
+            if n_old >= h[2] and n_new >= h[3]:
+                continue
+            h[1].append(line if line else ' ')
     for path, hs in files:
         if path == '/dev/null' or not path.endswith('.py'):
             continue
@@ -53,7 +60,7 @@ def apply_unified_diff(sources, diff_text):
             base = sources[path].split('\n')
         out = list(base)
         offset = 0
-        for start, lines in hs:
+        for start, lines, _no, _nn in hs:
             old = [l[1:] for l in lines if l[:1] in (' ', '-')]
             new = [l[1:] for l in lines if l[:1] in (' ', '+')]
             # trailing blank artefacts
@@ -71,7 +78,30 @@ def apply_unified_diff(sources, diff_text):
                     found = p
                     break
             if found is None:
-                return None
+                # fuzz: drop leading/trailing context lines (a later fix commit touched the neighbourhood) as long as the
+                # remaining old block is non-empty, still contains every removed line, and occurs exactly once
+                lead = 0
+                while lead < len(lines) and lines[lead][:1] == ' ':
+                    lead += 1
+                trail = 0
+                while trail < len(lines) - lead and lines[len(lines) - 1 - trail][:1] == ' ':
+                    trail += 1
+                done = False
+                for cut in range(1, max(lead, trail) + 1):
+                    a, b = min(cut, lead), min(cut, trail)
+                    sub = lines[a:len(lines) - b]
+                    o2 = [l[1:] for l in sub if l[:1] in (' ', '-')]
+                    n2 = [l[1:] for l in sub if l[:1] in (' ', '+')]
+                    if not o2:
+                        break
+                    hits = [p for p in range(0, len(out) - len(o2) + 1) if out[p:p + len(o2)] == o2]
+                    if len(hits) == 1:
+                        found, old, new = hits[0], o2, n2
+                        pos = found
+                        done = True
+                        break
+                if not done:
+                    return None
             out[found:found + len(old)] = new
             offset += len(new) - len(old) + (found - pos)
         overlay[path] = '\n'.join(out)
